@@ -22,7 +22,7 @@ def gather_inputs(w, tier, seed):
 
 
 TABLE = {"item.set": (3, 1), "attr.set": (2, 1), "slice.set": (5, 1), "item.get": (2, 1), "attr.get": (1, 1), "slice.get": (4, 1),
-         "store": (1, 1), "pop": (1, 0), "st.set": (2, 0), "st.mod": (2, 0), "st.x0": (2, 0), "st.x1": (3, 0), "push.range": (2, 1),
+         "store": (1, 1), "store.local": (1, 1), "pop": (1, 0), "st.set": (2, 0), "st.mod": (2, 0), "st.x0": (2, 0), "st.x1": (3, 0), "push.range": (2, 1),
          "neg": (1, 1), "pos": (1, 1), "dice": (1, 1), "dice.fate": (0, 1), "coc.bonus": (1, 1), "coc.penalty": (1, 1), "dice.wod": (1, 1), "dice.dc": (1, 1),
          "and": (2, 1)}
 for _o in ("add", "sub", "mul", "div", "mod", "pow", "nullCoalescing", "comp.lt", "comp.le", "comp.eq", "comp.ne", "comp.ge", "comp.gt", "&", "|"):
